@@ -43,6 +43,8 @@ def read(kind, mode, text):
                 k = _before_last(body, ": ")
                 if k is None:
                     return None
+                if mode == "plain" and k.endswith("?"):                    # optional marker (a name ending in ? is quoted)
+                    k = k[:-1]
                 if len(k) >= 2 and k[0] == k[-1] and k[0] in "\"'":      # a quoted property name
                     k = unescape(k[1:-1])
                 keys.append(k)
